@@ -72,7 +72,7 @@ def run_model_parallel(exe, lines, shards=12):
     return res
 
 
-def correspond(c, exe_m, prog, seed, n, tier, extra=None, name=None, same_as=None):
+def correspond(c, exe_m, prog, seed, n, tier, extra=None, name=None, oracles_only=False):
     name = name or prog
     rc, out, cases, st = V.run_harness(prog, "c07", seed, n, tier, extra=extra, name=name)
     if rc != 0:
@@ -83,8 +83,7 @@ def correspond(c, exe_m, prog, seed, n, tier, extra=None, name=None, same_as=Non
         c.failing_input("impl-oracle: " + what, case, v)
     if st.get("aborted"):
         c.notes.append("harness stopped early: " + str(st.get("aborted")))
-    if same_as and open(same_as, "rb").read() == open(cases, "rb").read():
-        c.notes.append("%s: case lines identical to %s (already judged by the model)" % (name, os.path.basename(same_as)))
+    if oracles_only:
         return st
     lines = [l for l in open(cases).read().split("\n") if l]
     outs = run_model_parallel(exe_m, ["(both " + l + ")" for l in lines])
@@ -134,16 +133,15 @@ def run(tier, seed, extra=None):
         if exe_m is None:
             c.broken_correspondence("model-extraction", None, V.tail(mlog, 40))
         else:
-            n = 60 if tier == "quick" else 700
+            n = 60 if tier == "quick" else 2000
             st = correspond(c, exe_m, "c07", seed, n, tier, extra=extra)
-            first_cases = os.path.join(V.BUILD, "cases", "c07.cases")
             exe_d, dlog = build_debug_harness()
             if exe_d is None:
                 c.broken_correspondence("debug-harness-build", None, V.tail(dlog, 40))
             else:
-                # same programs with fetch counting (slower: the debug trace formats every instruction)
-                std = correspond(c, exe_m, "c07dbg", seed, n if tier == "quick" else 150, "quick", extra=extra, name="c07dbg",
-                                 same_as=first_cases if tier == "quick" else None)
+                # same programs with fetch counting on a sample of the cancellation points (slow binary: the debug
+                # trace formats the stack at every instruction); only its implementation oracles are used
+                std = correspond(c, exe_m, "c07dbg", seed, n if tier == "quick" else 150, "quick", extra=extra, name="c07dbg", oracles_only=True)
     rule = ("programs: ~290 fixed (finite, error mid-stream, try/catch, label/break, limit/first/until/while/repeat/recurse/range, "
             "reduce/foreach, paths/updates, user functions, native Go iterators, inputs, 60 infinite forms) + seeded generator x wrapper "
             "compositions; for each program EVERY cancellation poll k = 0..N (N = polls of the finite run, or the cap) and 3 extra Next calls; "
